@@ -38,6 +38,9 @@ def run(ch, params, decoded=False):
     R.run_prefix_ops(prefix, w, stats)
 
     exp = ref.run_model(prog)
+    _skip = R.skipped_if_too_big(exp)
+    if _skip is not None:
+        return _skip
     model = exp["model"]
     classes = emit.build_classes(prog)
     budget = params["budget_mult"] * max(1, model.node_renders) + 300_000
